@@ -406,6 +406,18 @@ loop:
 		}
 	}
 	cancel()
+	// Login may return without having waited for the reply to its last message (e.g. when a package left over from the
+	// previous reply already decides the outcome): let the reader goroutine digest everything the peer has sent before the
+	// connection's packet size is looked at, so that the observation does not depend on who was faster
+	settled := 0
+	for i := 0; i < 2000 && settled < 5; i++ {
+		if q, _ := p.quiet(); q {
+			settled++
+		} else {
+			settled = 0
+		}
+		time.Sleep(time.Millisecond)
+	}
 	switch {
 	case o.panicked:
 		res.Class = -1
